@@ -7,13 +7,17 @@ PROPS = {
     "C16": {
         "title": "Calendar conversion and date arithmetic",
         "design_ref": "DESIGN.md section 3 (C16)",
-        "technique": "Verus contracts on the real src/time.rs functions against a proleptic-Gregorian spec (days/secs since epoch)",
+        "technique": "Verus contracts on the real src/time.rs functions against a proleptic-Gregorian spec (days/secs since epoch); the rendering "
+                     "(SystemTime::to_datetime, iso8601_utc) on its real text with format! expanded by rule R13 against the fixed-width form YYYY-MM-DDTHH:MM:SSZ",
         "level_text": "Deductive proof, for every i64 input in the stated ranges and every loop iteration (no bound), that DateTime::new(s) "
                       "yields the valid civil date-time whose seconds-since-epoch is s, and that dt + d yields the valid date-time with "
-                      "secs(dt)+d; includes overflow-, assert- and unimplemented-freedom and termination of both balance loops.",
+                      "secs(dt)+d; includes overflow-, assert- and unimplemented-freedom and termination of both balance loops. Rendering (unit timefmt): "
+                      "to_datetime yields the valid date-time of the instant's whole seconds; iso8601_utc is year, month, day, hour, minute, second of that "
+                      "date-time, each zero-padded to 4 / 2 digits, with '-', '-', 'T', ':', ':' and a final 'Z'; through year 9999 the text has exactly 20 "
+                      "characters with the separators at fixed positions (thm_iso_fixed_width).",
         "level_note": "Trusted: Verus/Z3/rustc, vstd; assumed contracts for Duration::as_secs and i64::try_from(u64); the format!() calls that "
                       "print the proven fields are not under contract; ranges are preconditions (seconds <= 2^48).",
-        "verus": ["time"],
+        "verus": ["time", "timefmt"],
         "verus_thorough": [],
         "kani": [],
         "witness": "c16",
@@ -23,10 +27,12 @@ PROPS = {
             "instants before 1970 are excluded (to_datetime unwraps duration_since(UNIX_EPOCH))",
             "assumed contract: std::time::Duration::as_secs returns the duration's whole seconds (uninterpreted dur_secs)",
             "assumed contract: i64::try_from(u64) succeeds iff the value fits (vstd leaves this pair unspecified)",
-            "assumed (std::fmt): {:04}/{:02} of a non-negative integer below 10^4/10^2 prints exactly that many digits; iso8601_utc, LogFile::create and Cookie Expires are format strings over the proven fields and are not under contract",
+            "assumed (std::fmt, rule R13): format! writes the literal pieces verbatim and `{:0N}` as the zero-padded decimal; of a non-negative integer below 10^N that is exactly N digits (axiom_pad_width)",
+            "assumed: instants are not before 1970 and within 2^48 seconds (the unwraps in to_datetime panic otherwise); rule S1 stand-in for `self.duration_since(SystemTime::UNIX_EPOCH)`",
+            "LogFile::create's file name and write_jsonl's time member use the same fields with their own format strings: write_jsonl's is under contract in unit jsonl (C17); LogFile::create's only in the bounded stand-in c16",
         ],
         "not_covered": [
-            "the format!() calls that render the proven fields (std::fmt is outside Verus)",
+            "LogFile::create's format string (bounded stand-in c16 checks the file name made now)",
             "SystemTime::now / duration_since (clock source)",
         ],
     },
@@ -496,7 +502,7 @@ PROPS = {
 # are listed in its evidence as notes (they are another property's alarm, or an unproved supporting contract).
 UNIT_OWNER = {
     "time": "C16", "chunked": "C07", "headers": "C14", "copy": "C09", "body": "C09", "conn": "C05", "head": "C01",
-    "parse": "C02", "logset": "C19", "logwriter": "C19", "jsonl": "C17", "cookie": "C15", "framing": "C03", "respguard": "C06", "respwrite": "C06", "errresp": "C20",
+    "parse": "C02", "logset": "C19", "logwriter": "C19", "jsonl": "C17", "cookie": "C15", "timefmt": "C16", "framing": "C03", "respguard": "C06", "respwrite": "C06", "errresp": "C20",
 }
 SCOPE = {
     # total request reading also needs the parsers to be panic-free
